@@ -13,6 +13,7 @@ import (
 	"bytes"
 	"encoding/json"
 	"fmt"
+	"github.com/Trendyol/go-dcp/stream"
 	"net"
 	"net/http"
 	"sort"
@@ -277,6 +278,12 @@ func TestC10_Couchbase(t *testing.T) {
 type c10Follower struct {
 	JoinTime int64 `json:"join_time"`
 	PingFail int   `json:"ping_fail"` // fails ping from this heartbeat round on (0 = never)
+	// RpcFail: the r-th assignment RPC the leader sends to this follower fails (transiently; the follower stays alive
+	// and registered). Restart r>0: between monitor rounds r and r+1 the follower's process is replaced by a new one
+	// that registers under the same name (join time RestartJoin).
+	RpcFail     []int `json:"rpc_fail,omitempty"`
+	Restart     int   `json:"restart,omitempty"`
+	RestartJoin int64 `json:"restart_join,omitempty"`
 }
 
 type c10Leader struct {
@@ -288,6 +295,8 @@ type fakeFollower struct {
 	name   string
 	mu     sync.Mutex
 	calls  [][2]int
+	rpcs   int
+	rpcBad map[int]bool
 	pings  int
 	failAt int
 	closed bool
@@ -309,6 +318,11 @@ func (f *fakeFollower) IsConnected() bool { return true }
 func (f *fakeFollower) Reconnect() error  { return nil }
 func (f *fakeFollower) Rebalance(m, t int) error {
 	f.mu.Lock()
+	f.rpcs++
+	if f.rpcBad[f.rpcs] {
+		f.mu.Unlock()
+		return fmt.Errorf("rebalance rpc to %s failed", f.name)
+	}
 	f.calls = append(f.calls, [2]int{m, t})
 	f.mu.Unlock()
 	f.target.SetInfo(m, t) // what the follower's RPC handler does
@@ -316,6 +330,70 @@ func (f *fakeFollower) Rebalance(m, t int) error {
 }
 
 func c10ExecLeader(sc c10Leader) string {
+	d, _ := c10ExecLeaderGroup(sc, 0)
+	return d
+}
+
+// c10ExecLeaderGroup: numbering check (first result); with numVb > 0 every member additionally owns a real vBucket
+// discovery object on its own bus (kubernetesHa membership) and the sets they report at the end must partition
+// 0..numVb-1 (second result, C09).
+func c10ExecLeaderGroup(sc c10Leader, numVb int) (string, string) {
+	r, part := c10ExecLeaderInner(sc, numVb)
+	return r, part
+}
+
+func c10ExecLeaderInner(sc c10Leader, numVb int) (numbering string, partition string) {
+	haCfg := laConfig()
+	haCfg.Dcp.Group.Membership.Type = membership.KubernetesHaMembershipType
+	discs := map[string]stream.VBucketDiscovery{}
+	var dmu sync.Mutex
+	newDisc := func(name string, b EventBus.Bus) {
+		if numVb > 0 {
+			dmu.Lock()
+			discs[name] = stream.NewVBucketDiscovery(nil, haCfg, numVb, b)
+			dmu.Unlock()
+		}
+	}
+	defer func() {
+		if numVb == 0 {
+			return
+		}
+		// every member that holds a numbering reports its vBuckets; together they must partition the bucket
+		owner := make([]string, numVb)
+		dmu.Lock()
+		defer dmu.Unlock()
+		names := make([]string, 0, len(discs))
+		for n := range discs {
+			names = append(names, n)
+		}
+		sort.Strings(names)
+		for _, n := range names {
+			var got []uint16
+			if ok, _ := within(300*time.Millisecond, func() { got = discs[n].Get() }); !ok {
+				continue // no numbering yet (judged by the numbering check)
+			}
+			for _, v := range got {
+				if owner[v] != "" && partition == "" {
+					partition = fmt.Sprintf("vBucket %d is owned by both %s and %s at the end of the history", v, owner[v], n)
+				}
+				owner[v] = n
+			}
+		}
+		for v, o := range owner {
+			if o == "" && partition == "" && numbering == "" {
+				partition = fmt.Sprintf("vBucket %d has no owner at the end of the history", v)
+			}
+		}
+	}()
+	numbering = c10ExecLeaderCore(sc, newDisc, func(name string) {
+		dmu.Lock()
+		delete(discs, name)
+		dmu.Unlock()
+	})
+	return
+}
+
+func c10ExecLeaderCore(sc c10Leader, newDisc func(string, EventBus.Bus), dropDisc func(string)) string {
 	cfg := laConfig()
 	cfg.Dcp.Group.Membership.RebalanceDelay = time.Millisecond
 	bus := EventBus.New()
@@ -327,6 +405,7 @@ func c10ExecLeader(sc c10Leader) string {
 		lmu.Unlock()
 	})
 	sd := servicediscovery.NewServiceDiscovery(cfg, bus)
+	newDisc("leader", bus)
 	sd.BeLeader()
 	var fs []*fakeFollower
 	followerPubs := map[string]*[]membership.Model{}
@@ -341,12 +420,41 @@ func c10ExecLeader(sc c10Leader) string {
 			*pubs = append(*pubs, *m)
 			fmu.Unlock()
 		})
-		ff := &fakeFollower{name: name, failAt: f.PingFail, target: servicediscovery.NewServiceDiscovery(cfg, fb)}
+		newDisc(name, fb)
+		ff := &fakeFollower{name: name, failAt: f.PingFail, target: servicediscovery.NewServiceDiscovery(cfg, fb), rpcBad: map[int]bool{}}
+		for _, r := range f.RpcFail {
+			ff.rpcBad[r] = true
+		}
 		fs = append(fs, ff)
 		sd.Add(servicediscovery.NewService(ff, name, f.JoinTime))
 	}
 	sd.StartHeartbeat()
 	sd.StartMonitor()
+	t0 := time.Now()
+	for i, f := range sc.Followers {
+		if f.Restart > 0 && f.Restart < sc.Rounds {
+			i, f := i, f
+			go func() {
+				// half-way between two monitor rounds: a new process registers under the old name
+				time.Sleep(time.Until(t0.Add(time.Duration(f.Restart)*5*time.Second + 2500*time.Millisecond)))
+				fb := EventBus.New()
+				name := fmt.Sprintf("f%d", i)
+				pubs := &[]membership.Model{}
+				_ = fb.Subscribe(helpers.MembershipChangedBusEventName, func(m *membership.Model) {
+					fmu.Lock()
+					*pubs = append(*pubs, *m)
+					fmu.Unlock()
+				})
+				newDisc(name, fb) // the new process has its own discovery object (replaces the dead one's)
+				nf := &fakeFollower{name: name, target: servicediscovery.NewServiceDiscovery(cfg, fb), rpcBad: map[int]bool{}}
+				fmu.Lock()
+				followerPubs[name] = pubs
+				fs[i] = nf
+				fmu.Unlock()
+				sd.Add(servicediscovery.NewService(nf, name, f.RestartJoin))
+			}()
+		}
+	}
 	time.Sleep(time.Duration(sc.Rounds)*5*time.Second + 700*time.Millisecond)
 	sd.StopMonitor()
 	sd.StopHeartbeat()
@@ -359,7 +467,16 @@ func c10ExecLeader(sc c10Leader) string {
 	for i, f := range sc.Followers {
 		// heartbeat round r (at 5r s) issues ping number r; the monitor round at 5r+ s already sees the removal
 		if f.PingFail == 0 || f.PingFail > sc.Rounds {
-			alive = append(alive, fl{i, f.JoinTime})
+			jt := f.JoinTime
+			if f.Restart > 0 && f.Restart < sc.Rounds {
+				jt = f.RestartJoin
+			}
+			alive = append(alive, fl{i, jt})
+		}
+	}
+	for i, f := range sc.Followers {
+		if !(f.PingFail == 0 || f.PingFail > sc.Rounds) {
+			dropDisc(fmt.Sprintf("f%d", i)) // a dead process owns nothing
 		}
 	}
 	sort.SliceStable(alive, func(a, b int) bool { return alive[a].join < alive[b].join })
@@ -380,7 +497,9 @@ func c10ExecLeader(sc c10Leader) string {
 	}
 	seen := map[int]string{1: "leader"}
 	for rank, a := range alive {
+		fmu.Lock()
 		f := fs[a.i]
+		fmu.Unlock()
 		f.mu.Lock()
 		calls := append([][2]int(nil), f.calls...)
 		f.mu.Unlock()
@@ -438,6 +557,49 @@ func c10ExecLeader(sc c10Leader) string {
 	return ""
 }
 
+// c10GenLeader draws one leader-assigned group history.
+func c10GenLeader(rt *rapid.T) c10Leader {
+	sc := c10Leader{Rounds: scale(2, 3)}
+	// a follower failing its ping in heartbeat round r is certainly gone by monitor round r+1
+	failRounds := []int{0, 0, 0, 1}
+	if sc.Rounds >= 3 {
+		failRounds = []int{0, 0, 0, 1, 2}
+	}
+	k := rapid.IntRange(0, 7).Draw(rt, "followers")
+	for j := 0; j < k; j++ {
+		sc.Followers = append(sc.Followers, c10Follower{
+			JoinTime: rapid.OneOf(rapid.Int64Range(1, 8), rapid.Int64Range(1_700_000_000_000_000_000, 1_700_000_000_000_000_100)).Draw(rt, "join"),
+			PingFail: rapid.SampledFrom(failRounds).Draw(rt, "pingfail"),
+		})
+	}
+	// transient faults of the assignment RPC and restarts of follower processes - only in groups whose
+	// membership is otherwise stable (a failed RPC in the very round that changes the numbering legitimately
+	// leaves that follower behind until the next round)
+	stable := true
+	for _, f := range sc.Followers {
+		stable = stable && f.PingFail == 0
+	}
+	if stable && k > 0 {
+		switch rapid.SampledFrom([]int{0, 1, 1, 1, 2, 2}).Draw(rt, "fault") {
+		case 1: // some RPCs fail (any round, also the last)
+			for j := range sc.Followers {
+				if rapid.IntRange(0, 2).Draw(rt, "rpcf") == 0 {
+					sc.Followers[j].RpcFail = rapid.SliceOfNDistinct(rapid.IntRange(1, sc.Rounds), 1, sc.Rounds-1, func(i int) int { return i }).Draw(rt, "rounds")
+				}
+			}
+			if k >= 2 && rapid.Bool().Draw(rt, "lastroundfail") {
+				// the assignment RPC of the LAST observed round fails for one follower: nothing heals it within the history
+				sc.Followers[rapid.IntRange(0, k-1).Draw(rt, "whofails")].RpcFail = []int{sc.Rounds}
+			}
+		case 2: // a follower restarts under its name, keeping or changing its place in the join order
+			j := rapid.IntRange(0, k-1).Draw(rt, "who")
+			sc.Followers[j].Restart = rapid.IntRange(1, sc.Rounds-1).Draw(rt, "when")
+			sc.Followers[j].RestartJoin = rapid.OneOf(rapid.Just(sc.Followers[j].JoinTime), rapid.Int64Range(1_800_000_000_000_000_000, 1_800_000_000_000_000_100)).Draw(rt, "rejoin")
+		}
+	}
+	return sc
+}
+
 func TestC10_Leader(t *testing.T) {
 	n := scale(120, 12000)
 	_, nsh := shard()
@@ -447,19 +609,7 @@ func TestC10_Leader(t *testing.T) {
 			return
 		}
 		for i := 0; i < (n+nsh-1)/nsh; i++ {
-			sc := c10Leader{Rounds: scale(2, 3)}
-			// a follower failing its ping in heartbeat round r is certainly gone by monitor round r+1
-			failRounds := []int{0, 0, 0, 1}
-			if sc.Rounds >= 3 {
-				failRounds = []int{0, 0, 0, 1, 2}
-			}
-			k := rapid.IntRange(0, 7).Draw(rt, "followers")
-			for j := 0; j < k; j++ {
-				sc.Followers = append(sc.Followers, c10Follower{
-					JoinTime: rapid.OneOf(rapid.Int64Range(1, 8), rapid.Int64Range(1_700_000_000_000_000_000, 1_700_000_000_000_000_100)).Draw(rt, "join"),
-					PingFail: rapid.SampledFrom(failRounds).Draw(rt, "pingfail"),
-				})
-			}
+			sc := c10GenLeader(rt)
 			scs = append(scs, sc)
 		}
 	})
@@ -478,7 +628,19 @@ func TestC10_Leader(t *testing.T) {
 		for _, f := range scs[i].Followers {
 			fail = fail || f.PingFail == 1
 		}
-		record("C10", scs[i], len(scs[i].Followers) >= 2 && fail, "leader_cases")
+		labs := []string{"leader_cases"}
+		for _, f := range scs[i].Followers {
+			if len(f.RpcFail) > 0 {
+				labs = append(labs, "leader_rpc_failure")
+				break
+			}
+		}
+		for _, f := range scs[i].Followers {
+			if f.Restart > 0 {
+				labs = append(labs, "leader_follower_restart")
+			}
+		}
+		record("C10", scs[i], len(scs[i].Followers) >= 2 && (fail || len(labs) > 1), labs...)
 	}
 }
 
